@@ -3,15 +3,15 @@
 # the repository ($1, default $VP_RUN_REPO), run the check of the property it breaks, and print one
 # line per seed. Meant for `vp run --with-repo` (the snapshot's harness and check are pointed at
 # the copy first); never touches /repo.
-# usage (inside a vp run snapshot): tools/regress_seeds.sh <i> <k>   (every k-th seed starting at i; default all)
+# usage (inside a vp run snapshot): tools/regress_seeds.sh <i> <k> [pattern]   (every k-th seed starting at i of seeded/<pattern>; default all of S*)
 # Runs without the x8 escalation (VERIF_NO_ESCALATE): a change caught at the base counts is caught at 8x.
 set -u
 R=$VP_RUN_REPO
-I=${1:-0}; K=${2:-1}; N=0
+I=${1:-0}; K=${2:-1}; PAT=${3:-S*}; N=0
 export VERIF_NO_ESCALATE=1
 sed -i "s#/repo#$R#g" harness/Cargo.toml check
 ./setup.sh >/dev/null 2>&1 || { echo "setup failed"; exit 1; }
-for d in seeded/S*; do
+for d in seeded/$PAT; do
   N=$((N+1)); [ $(( (N - 1) % K )) -eq "$I" ] || continue
   p=$(python3 -c "import json,sys; print(json.load(open('$d/meta.json'))['breaks_property'])")
   git -C "$R" apply "$PWD/$d/patch.diff" 2>/dev/null || { echo "$d $p PATCH-DOES-NOT-APPLY"; continue; }
